@@ -38,6 +38,11 @@ HX int h_stft_rt(const double* x, int nx, int kind, int nwin, int sym, int overl
     return r.size();
     H_END
 }
+// an odd-length request (rejected) first, then the even one: the rejection must leave nothing behind
+HX int h_irfft_after_odd(const double* X, int nb, int n, double* y) {
+    try { arr_real t = irfft(mk_cmplx(X, nb), n + 1); (void)t; } catch (...) {}
+    H_TRY arr_real r = irfft(mk_cmplx(X, nb), n); put_real(r, y); return r.size(); H_END
+}
 // default-argument overloads
 HX int h_stft_rt_default(const double* x, int nx, int nfft, double* y) {
     H_TRY auto S = stft(mk_real(x, nx), nfft); arr_real r = istft(S, nfft); put_real(r, y); return r.size(); H_END
